@@ -33,6 +33,11 @@ def run(model, tier="quick"):
     from ..rules.rollback import rollback_rule
     res.rules.append("R-PAIR")
     res.units["compensation_handlers"] = rollback_rule(model, res)
+    # positions and debts are READ through the Aave memo caches (market.supplies / borrows): a rejection that leaves a
+    # cache stale shows the user positions that differ from before the call although the raw state was restored
+    from ..rules.cache import run_cache
+    res.rules.append("R-CACHE")
+    res.units["aave_cache_writer_methods"] = run_cache(model, res, "AaveV3Market", res.prop)[0]
     uncl = unclassified_fields(model)
     if uncl:
         res.notes.append("unclassified fields treated as holdings: " + ", ".join(uncl))
@@ -49,7 +54,7 @@ def run(model, tier="quick"):
     return res
 
 MANIFEST = {
-    "technique": "static failure-atomicity analysis: write-before-rejection dataflow over inlined operation bodies (ast abstract interpretation), plus cell-object mutation (alias) analysis for the order book and a rollback-exactness rule for compensation handlers",
+    "technique": "static failure-atomicity analysis: write-before-rejection dataflow over inlined operation bodies (ast abstract interpretation), plus cell-object mutation (alias) analysis for the order book a rollback-exactness rule for compensation handlers, and the memo-cache typestate at rejection exits (reported positions)",
     "claim": "Static analysis of all paths of every public state-changing operation of the six markets and the broker "
              "(callees inlined, powerset of abstract states): no write to holdings, wallet, visible order book or action "
              "log precedes a reachable rejection (raise/require/assert/closed-market gate) without rollback. Decides the "
